@@ -29,7 +29,7 @@ from engine import families, internmodel as im, par, report, symnum, work
 from engine.symnum import ctx, explore
 
 PID = "C19"
-SRC = "/repo/src/measured"
+SRC = os.environ.get("VERIF_REPO", "/repo") + "/src/measured"
 OTHER = object()
 
 
